@@ -5208,7 +5208,8 @@ EmitOp_MemBaseIndex_Rn5_Rm16:
 
 EmitOp_Rel:
   {
-    if (rm_rel->is_label() || rm_rel->is_mem()) {
+    // A memory operand without a label base designates an absolute address (handled below like an immediate target).
+    if (rm_rel->is_label() || (rm_rel->is_mem() && rm_rel->as<Mem>().has_base_label())) {
       uint32_t label_id;
       int64_t label_offset = 0;
 
@@ -5249,11 +5250,11 @@ EmitOp_Rel:
     }
   }
 
-  if (rm_rel->is_imm()) {
+  if (rm_rel->is_imm() || rm_rel->is_mem()) {
     uint64_t base_address = _code->base_address();
     uint64_t section_offset = _section->offset();
 
-    uint64_t target_offset = rm_rel->as<Imm>().value_as<uint64_t>();
+    uint64_t target_offset = rm_rel->is_imm() ? rm_rel->as<Imm>().value_as<uint64_t>() : uint64_t(rm_rel->as<Mem>().offset());
     size_t code_offset = writer.offset_from(_buffer_data);
 
     if (!EmitterUtils::is_absolute_location(base_address, section_offset)) {
@@ -5267,7 +5268,7 @@ EmitOp_Rel:
       re->_source_section_id = _section->section_id();
       re->_source_offset = code_offset;
       re->_format = offset_format;
-      re->_payload = rm_rel->as<Imm>().value_as<uint64_t>() + 4u;
+      re->_payload = target_offset + 4u;
       goto EmitOp;
     }
     else {
